@@ -339,7 +339,7 @@ func classifyConvex(e *Eco, v *Violation, rng string, b any) {
 
 // ---------- C18 ----------
 
-var pads = []string{" ", "\t", "\n", "\r", "  ", "\r\n", " \t ", "\n\n"}
+var pads = []string{" ", "\t", "\n", "\r", "  ", "\r\n", " \t ", "\n\n", "\v", "\f", " \f\v"}
 
 func checkC18(ctx *Ctx) {
 	res := ctx.Res
